@@ -160,6 +160,15 @@ class Sim:
             e.sim_id = ["storage", tag, self.epoch, 0, n]
             raise e
 
+    def _write_model(self, tag, w):
+        """User code writes a (valid) state value into the model from inside a callback."""
+        mo = self.models.get(tag)
+        if mo is None:
+            return
+        self.rec(k="xw", i=tag, v=w["value"], e=self.cur_epoch())
+        setattr(mo, self.fields.get(tag, "state"), dec(w["value"]))
+        self.stats["writes_in_callbacks"] = self.stats.get("writes_in_callbacks", 0) + 1
+
     def probe(self, name, obj=None):
         """A user-defined attribute of the machine was evaluated / called (C13: must never happen
         because of a send())."""
@@ -344,6 +353,8 @@ class Sim:
                 self.threads.yield_point("cb")
             ret = None
             if rule is not None:
+                if rule.get("write") is not None:
+                    self._write_model(tag, rule["write"])
                 sends = rule.get("sends")
                 if (sends and (rule.get("sends_jlt") is None or j < rule["sends_jlt"])
                         and (rule.get("sends_dplt") is None or dp < rule["sends_dplt"])):
@@ -442,6 +453,8 @@ class Sim:
                 stale = (tag, epoch) in self.failed or epoch != self.cur_epoch()
                 if stale:
                     self.stats["orphans"] += 1
+                if rule.get("write") is not None and not stale:
+                    self._write_model(tag, rule["write"])
                 sends = rule.get("sends")
                 if sends and rule.get("sends_jlt") is not None and not (j < rule["sends_jlt"]):
                     sends = None
